@@ -1,30 +1,62 @@
 """Child process of C12: converts / decodes a batch under the PYTHONHASHSEED it was started with and
 prints the SHA-256 of every output."""
 import hashlib
+import io
 import json
+import os
 import sys
+
+
+def run_item(it):
+    """One execution of the real code for one item -> SHA-256 of what it produced."""
+    if it["kind"] == "convert":
+        from vlib import harness
+        r = harness.convert(it["text"], **it["opts"])
+        data = r["out"] if r["ok"] else "EXC:" + str(r.get("exc"))
+        return hashlib.sha256(data.encode("utf-8", "replace")).hexdigest()
+    if it["kind"] == "cli":
+        # the command line, always through the same source / config / output paths (as a batch run over one
+        # directory would): only the files' contents differ from item to item
+        from vlib import run
+        from coco import decb_to_b09
+        d = os.path.join(run.WORK, "c12cli-%d" % os.getpid())
+        os.makedirs(d, exist_ok=True)
+        src, dst, cfg = os.path.join(d, "prog.bas"), os.path.join(d, "prog.b09"), os.path.join(d, "b09.yaml")
+        with open(src, "w", newline="") as f:
+            f.write(it["text"])
+        argv = list(it["flags"])
+        if it.get("cfg") is not None:
+            with open(cfg, "w") as f:
+                f.write(it["cfg"])
+            argv += ["-c", cfg]
+        if os.path.exists(dst):
+            os.remove(dst)
+        saved = (sys.stdout, sys.stderr)
+        sys.stdout, sys.stderr = io.StringIO(), io.StringIO()
+        try:
+            decb_to_b09.start(argv + [src, dst])
+            with open(dst, "rb") as f:
+                data = f.read()
+        except BaseException as exc:  # noqa: BLE001 - SystemExit included
+            data = ("EXC:" + type(exc).__name__).encode()
+        finally:
+            sys.stdout, sys.stderr = saved
+        return hashlib.sha256(data).hexdigest()
+    from vlib.img import decoders
+    r = decoders.decode(it["fmt"], bytes.fromhex(it["hex"]), it.get("args", []))
+    return hashlib.sha256(repr((r["status"], r.get("exc"))).encode() + (r.get("out") or b"")).hexdigest()
 
 
 def main():
     from vlib import boot
     boot.assert_repo()
     jobs = json.load(sys.stdin)
-    out = []
     order = jobs.get("order")
     items = jobs["items"]
     idxs = order if order else list(range(len(items)))
     res = {}
     for i in idxs:
-        it = items[i]
-        if it["kind"] == "convert":
-            from vlib import harness
-            r = harness.convert(it["text"], **it["opts"])
-            data = r["out"] if r["ok"] else "EXC:" + str(r.get("exc"))
-            res[i] = hashlib.sha256(data.encode("utf-8", "replace")).hexdigest()
-        else:
-            from vlib.img import decoders
-            r = decoders.decode(it["fmt"], bytes.fromhex(it["hex"]), it.get("args", []))
-            res[i] = hashlib.sha256(repr((r["status"], r.get("exc"))).encode() + (r.get("out") or b"")).hexdigest()
+        res[i] = run_item(items[i])
     print(json.dumps([res[i] for i in range(len(items))]))
 
 
